@@ -1249,6 +1249,34 @@ func registerMisc() {
 	I["github.com/yandex/pandora/components/providers/grpc/grpcjson.decodeAmmo"] = func(m *Machine, fr *frame, fn *ssa.Function, a []Value) Value {
 		return tuple{a[1], Iface{}}
 	}
+	// antchfx/xpath: contract-level stubs (result type is decided by the outermost function)
+	I["github.com/antchfx/xpath.Compile"] = func(m *Machine, fr *frame, fn *ssa.Function, a []Value) Value {
+		pt := fn.Signature.Results().At(0).Type()
+		obj := new(Value)
+		*obj = zero(deref(pt))
+		m.ghost[fmt.Sprintf("xpath:%p", obj)] = a[0]
+		return tuple{obj, Iface{}}
+	}
+	I["github.com/antchfx/htmlquery.CreateXPathNavigator"] = func(m *Machine, fr *frame, fn *ssa.Function, a []Value) Value {
+		return zeroResult(fn)
+	}
+	I["(*github.com/antchfx/xpath.Expr).Evaluate"] = func(m *Machine, fr *frame, fn *ssa.Function, a []Value) Value {
+		q, _ := m.ghost[fmt.Sprintf("xpath:%p", a[0].(*Value))].(Str)
+		switch {
+		case strings.HasPrefix(q.s, "count(") || strings.HasPrefix(q.s, "sum(") || strings.HasPrefix(q.s, "number("):
+			return Iface{T: types.Typ[types.Float64], V: mkReal(new(big.Rat))}
+		case strings.HasPrefix(q.s, "string(") || strings.HasPrefix(q.s, "concat("):
+			return Iface{T: types.Typ[types.String], V: Str{}}
+		case strings.HasPrefix(q.s, "boolean(") || strings.HasPrefix(q.s, "not("):
+			return Iface{T: types.Typ[types.Bool], V: tFalse}
+		}
+		pkg := m.eng.prog.ImportedPackage("github.com/antchfx/xpath")
+		it := pkg.Type("NodeIterator").Type()
+		obj := new(Value)
+		*obj = zero(it)
+		return Iface{T: types.NewPointer(it), V: obj}
+	}
+	I["(*github.com/antchfx/xpath.NodeIterator).MoveNext"] = func(m *Machine, fr *frame, fn *ssa.Function, a []Value) Value { return tFalse }
 	I["runtime.Gosched"] = func(m *Machine, fr *frame, fn *ssa.Function, a []Value) Value {
 		m.visible("gosched")
 		return nil
